@@ -184,6 +184,132 @@ impl<I: Index> GraphNameIndex for SimpleTermIndex<I> {
     }
 }
 
+/// Verification hook (compiled only with `--cfg sophia_verif`; nothing is added otherwise).
+#[cfg(sophia_verif)]
+impl<I: Index> SimpleTermIndex<I> {
+    /// Pointer-provenance audit of the self-referential borrows created in
+    /// [`ensure_index`](TermIndex::ensure_index).
+    ///
+    /// For each index `i`, returns `(found, inside)`:
+    /// * `found`: `t2i` maps a key to `i`, of the same shape as `i2t[i]`
+    ///   (and [`Term::eq`] to it, whenever comparing them is known to be sound);
+    /// * `inside`: furthermore, every string of `i2t[i]` that `i2t[i]` does not own itself
+    ///   lies inside a heap buffer owned by that key.
+    ///
+    /// The strings of `i2t[i]` are never dereferenced unless `inside` holds
+    /// (their address and length are read from the `MownStr` struct itself).
+    pub fn verif_audit(&self) -> Vec<(bool, bool)> {
+        let mut keys: Vec<Option<&SimpleTerm<'static>>> = vec![None; self.i2t.len()];
+        for (k, i) in &self.t2i {
+            if let Some(slot) = keys.get_mut(i.into_usize()) {
+                *slot = Some(k);
+            }
+        }
+        self.i2t
+            .iter()
+            .zip(keys)
+            .map(|(t, k)| match k {
+                None => (false, false),
+                Some(k) => {
+                    let shape = verif_hook::same_shape(k, t);
+                    let inside = shape && verif_hook::inside(k, t);
+                    let found = shape && (!inside || Term::eq(k, t));
+                    (found, inside)
+                }
+            })
+            .collect()
+    }
+}
+
+#[cfg(sophia_verif)]
+mod verif_hook {
+    use sophia_api::MownStr;
+    use sophia_api::term::SimpleTerm;
+    use std::ops::Deref;
+
+    /// `(address, length, is_owned)` of a `MownStr`, read from the two words of the struct itself:
+    /// the bytes it designates are not touched, and no reference to them is created.
+    fn raw_parts(m: &MownStr<'_>) -> (usize, usize, bool) {
+        const WORDS: usize = 2;
+        assert_eq!(
+            std::mem::size_of::<MownStr<'_>>(),
+            WORDS * std::mem::size_of::<usize>()
+        );
+        let words = |x: &MownStr<'_>| -> [usize; WORDS] {
+            // SAFETY: `x` is a live, initialized struct of exactly two words
+            unsafe { std::ptr::read((x as *const MownStr<'_>).cast::<[usize; WORDS]>()) }
+        };
+        // which word is the address? calibrate on a string whose address is known
+        static PROBE: &str = "sophia_verif probe";
+        let pw = words(&MownStr::from_ref(PROBE));
+        let ai = if pw[0] == PROBE.as_ptr() as usize && pw[1] == PROBE.len() {
+            0
+        } else {
+            assert!(pw[1] == PROBE.as_ptr() as usize && pw[0] == PROBE.len());
+            1
+        };
+        let w = words(m);
+        (w[ai], w[1 - ai] & (usize::MAX >> 1), m.is_owned())
+    }
+
+    fn strs<'x>(t: &'x SimpleTerm<'static>, out: &mut Vec<&'x MownStr<'static>>) {
+        match t {
+            SimpleTerm::Iri(x) => out.push(x.deref()),
+            SimpleTerm::BlankNode(x) => out.push(x.deref()),
+            SimpleTerm::Variable(x) => out.push(x.deref()),
+            SimpleTerm::LiteralDatatype(l, d) => {
+                out.push(l);
+                out.push(d.deref());
+            }
+            SimpleTerm::LiteralLanguage(l, g) => {
+                out.push(l);
+                out.push(g.deref());
+            }
+            SimpleTerm::Triple(spo) => {
+                for c in spo.iter() {
+                    strs(c, out);
+                }
+            }
+        }
+    }
+
+    pub(super) fn same_shape(k: &SimpleTerm<'static>, t: &SimpleTerm<'static>) -> bool {
+        match (k, t) {
+            (SimpleTerm::Iri(_), SimpleTerm::Iri(_))
+            | (SimpleTerm::BlankNode(_), SimpleTerm::BlankNode(_))
+            | (SimpleTerm::Variable(_), SimpleTerm::Variable(_))
+            | (SimpleTerm::LiteralDatatype(..), SimpleTerm::LiteralDatatype(..))
+            | (SimpleTerm::LiteralLanguage(..), SimpleTerm::LiteralLanguage(..)) => true,
+            (SimpleTerm::Triple(a), SimpleTerm::Triple(b)) => {
+                a.iter().zip(b.iter()).all(|(x, y)| same_shape(x, y))
+            }
+            _ => false,
+        }
+    }
+
+    /// every string of `t` is owned by `t` itself, or empty, or lies inside a buffer owned by `k`
+    pub(super) fn inside(k: &SimpleTerm<'static>, t: &SimpleTerm<'static>) -> bool {
+        let mut ks = vec![];
+        strs(k, &mut ks);
+        // the key is alive: its strings may be inspected freely
+        let bufs: Vec<(usize, usize)> = ks
+            .iter()
+            .filter(|m| m.is_owned())
+            .map(|m| (m.as_ptr() as usize, m.len()))
+            .collect();
+        let mut ts = vec![];
+        strs(t, &mut ts);
+        ts.iter().all(|m| {
+            let (addr, len, owned) = raw_parts(m);
+            owned
+                || len == 0
+                || bufs
+                    .iter()
+                    .any(|(ka, kl)| *ka <= addr && addr + len <= *ka + *kl)
+        })
+    }
+}
+
 /// An error type to indicate that a [`SimpleTermIndex`] is full
 #[derive(thiserror::Error, Copy, Clone, Debug)]
 #[error("This TermIndex can not contain more terms")]
